@@ -75,3 +75,5 @@ pub fn locks_free() -> [bool; 5] {
         crate::descriptor::DescriptorManager::new().verif_lock_free(),
     ]
 }
+
+pub use crate::parser::Literal;
